@@ -6,10 +6,8 @@ unit, S0, S9, OKV, ASSIGN, PREFIX = _v.unit, _v.S0, _v.S9, _v.OKV, _v.ASSIGN, _v
 # ---------------------------------------------------------------- mut e -------------------------
 ME = f"eval_res(self.instruction.instruction, {S0})"
 ME_ST = f"eval_st(self.instruction.instruction, {S0})"
-unit(id="mut.exec", src="src/instruction/mut.rs", path=[("impl", "Exec for Mut"), ("fn", "exec")], impl="MutInsK",
+unit(id="mut.exec", src="src/instruction/mut.rs", path=[("impl", "Exec for Mut"), ("fn", "exec")], impl="MutIns",
      mod="mut_exec", stubs=["iws.exec"], fragments=["cells"], broadcast=["axiom_new_lock_holds_its_value"],
-     unit_types=[dict(name="Mut (instruction)", src="src/instruction/mut.rs", path=[("struct", "Mut")],
-                      rewrites=[("pub struct Mut", "pub struct MutInsK")])],
      ensures=[
          ("mut.exec.initialiser_error_stops", ["C13"], f"{ME} is Err ==> r == {ME} && {S9} == {ME_ST}"),
          ("mut.exec.new_cell_holds_the_initialiser_value", ["C13"],
